@@ -1,4 +1,6 @@
 """C15 - SEQX package mirrors the forged sequence and enforces AWG70000A limits."""
+from fractions import Fraction
+
 import numpy as np
 
 from .elgen import CHAN_POOL, Regs, marker_rle
@@ -36,7 +38,7 @@ def generate(rng, tier):
 
 def gen_case(rng):
     regs = Regs()
-    SR = rng.choice([1e9, 2.4e9, 25e9, 1000.0])
+    SR = rng.choice([1e9, 2.4e9, 25e9, 1000.0, 4e12, 1e13])
     # outcome classes (measured, see DESIGN 9.7): package produced / one voltage outside / a sequencing value at or
     # beyond an instrument limit (voltages inside, so that the sequencing guard is reached) / fewer than 2400 points
     klass = rng.choice(["inside"] * 9 + ["voltage"] * 4 + ["sequencing"] * 5 + ["short"] * 2)
@@ -104,6 +106,9 @@ def gen_case(rng):
         prog.append(("SAddElement", s, pos, e))
     for c in chans:
         prog.append(("SSetAmp", s, c, ampl[c]))
+    if klass in ("inside", "sequencing") and rng.random() < 0.4:
+        for c in chans:          # channel delays of whole samples (never one sample apart: C10's known finding)
+            prog.append(("SSetDelay", s, c, float(Fraction(rng.choice([0, 2, 4, 40])) / Fraction(SR))))
     for pos in range(1, npos + 1):
         if rng.random() < 0.6:
             fld = rng.choice(["twait", "nrep", "jump_target", "goto", "jump_input"])
